@@ -5,7 +5,7 @@ from ..core import hexs, unhex, sx_parse
 from ..runner import Stream
 
 ID = "C12"
-AREAS = ["help"]
+AREAS = ["help", "parse"]
 RULE = ("random command trees (depth <= 3) mixing short-only / long-only / short+long flags, Count flags, options with "
         "env variables (set / unset / empty, hide_env, hide_env_values), default values (with whitespace, quotes, backslashes; "
         "hide_default_value), visible and hidden aliases / short aliases, global flags and options inherited by the subcommand levels, "
@@ -18,7 +18,11 @@ RULE = ("random command trees (depth <= 3) mixing short-only / long-only / short
         "argument groups (required or not, multiple), requires rules towards arguments and groups (chains, conditional rules), "
         "subcommand_negates_reqs / args_conflicts_with_subcommands / subcommand_required / allow_external_subcommands, subcommand_value_name, "
         "next_help_heading between the Command::arg calls (with resets) and subcommand_help_heading at every level, and custom help "
-        "templates made of titled blocks for {options} / {positionals} / {subcommands} (any order, repeated) or {all-args}, with unknown tags.")
+        "templates made of titled blocks for {options} / {positionals} / {subcommands} (any order, repeated) or {all-args}, with unknown tags.  "
+        "Fourth pass, stream help-subcommand-paths (parser harness mode / extracted parse_top): trees of depth <= 3 with visible and hidden "
+        "subcommand aliases, infer_subcommands, a flag and an option per level; lines = arguments, 0..2 descents by name / alias with arguments, then "
+        "`help` (or a prefix of it under inference) + 0..3 words (name, alias, proper prefix of a name / of an alias, garbage) or --help / -h; "
+        "non-trivial when the reference reading resolves the line to a level.")
 TRUSTED = [
     "Coq 8.16.1 kernel (coqc); no native_compute; theorems C12_* are 'Closed under the global context'",
     "extraction: ExtrOcamlBasic only, no Extract Constant; OCaml driver ocaml/help_driver.ml (spec reader, printing, display_width = byte length)",
@@ -31,6 +35,7 @@ ASSUMPTIONS = [
     "domain of the model: no flatten_help, override_usage / override_help, Arg::group on the argument side, subcommand visible aliases (the generators stay inside it); argument groups, requires, the subcommand usage forms, next_help_heading, subcommand_help_heading, subcommand_value_name, custom help templates (tag dispatch; the texts of name / bin / version / author / before- / after-help are not modelled), env, defaults, (short) aliases, possible values in spec_vals and global arguments are modelled",
     "refs_ok (hypothesis of C12_padding_safe, C12_render_total, C12_usage_*, C12_template_total): group ids unique, group members are arguments, every id named by a requires rule exists -- what debug_asserts.rs checks before any rendering",
     "the generators keep `hide`n arguments out of groups and out of requires targets: a hidden member of a listed group is printed by format_group (observation C12_usage_hidden_group_member_shown, replayed on the real crate)",
+    "fourth pass: the wide help-chain theorems (C12_help_flag_*_wide*, C12_help_subcommand_*) quantify over the class hsplit (inside C09's wsplit/wline): every level accepts its own arguments from a fresh matcher, levels are left through name / alias / inferred prefix / long flag-subcommand tokens, ignore_errors and args_conflicts_with_subcommands off; the *_gen forms assume the user's tree is unbuilt (tree_all unb), the help flag not disabled at the level and no subcommand of it named `--help` / `-h`",
     "the help-level theorems on the parser model (C12_help_flag_*_level_gen) quantify over chains of subcommand names/aliases directly followed by the help flag (class help_chain); hypotheses: the level at the end of the chain contains the generated help argument (C12_build_has_help: the build puts it there when the flag is not disabled) and no subcommand of that level answers to the token `--help` / `-h`",
     "C12_padding_safe assumes every rendered left column is at most 65 000 columns wide (observation N: core::fmt limits run-time widths to u16 on rustc >= 1.87)",
     "names are ASCII in generated cases (columns = characters = bytes)",
@@ -1125,6 +1130,235 @@ def nontrivial(case, impl):
     return "(row " in impl or len(re.findall(r"\(usage ([^)]*)\)", impl)[0].split()) > 1 if "(usage" in impl else False
 
 
+# --------------------------------------------------------------------------------- fourth pass: `help <path>` and the help
+# flag behind chains WITH arguments, on the parser (`parse` mode of the shared harness / parse model driver)
+HS_LETTERS = "abcdefgijklmnopqrstuvwxyz"      # no h: nothing but `help` starts with h
+
+
+def _hs_name(rng, used):
+    while True:
+        n = "".join(rng.choice(HS_LETTERS) for _ in range(rng.choice([2, 3, 4, 5, 6])))
+        if n not in used and not any(u.startswith(n) or n.startswith(u) for u in used if rng.random() < 0.7):
+            used.add(n)
+            return n
+
+
+def _hs_cmd(rng, name, depth, used_opts):
+    c = {"name": name, "subs": [], "aliases": [], "flag": None, "opt": None, "set": []}
+    if rng.random() < 0.7:
+        f = _hs_name(rng, used_opts)
+        c["flag"] = f
+    if rng.random() < 0.6:
+        o = _hs_name(rng, used_opts)
+        c["opt"] = o
+    if depth > 0:
+        used = set()
+        for _ in range(rng.choice([0, 1, 2, 2, 3])):
+            sc = _hs_cmd(rng, _hs_name(rng, used), depth - 1, used_opts)
+            for _ in range(rng.choice([0, 0, 1, 1, 2])):
+                sc["aliases"].append((_hs_name(rng, used), rng.random() < 0.5))
+            c["subs"].append(sc)
+    return c
+
+
+def _hs_sx(c):
+    out = "(cmd " + hexs(c["name"].encode())
+    for st in c["set"]:
+        out += " (set %s)" % st
+    for (a, vis) in c["aliases"]:
+        out += " (alias %s%s)" % (hexs(a.encode()), " v" if vis else "")
+    if c["flag"]:
+        out += " (arg %s (long %s) (action settrue))" % (hexs(c["flag"].encode()), hexs(c["flag"].encode()))
+    if c["opt"]:
+        out += " (arg %s (long %s) (action set))" % (hexs(c["opt"].encode()), hexs(c["opt"].encode()))
+    for sc in c["subs"]:
+        out += " (sub %s)" % _hs_sx(sc)
+    return out + ")"
+
+
+def _hs_level_args(rng, c):
+    out = []
+    if c["flag"] and rng.random() < 0.5:
+        out.append("--" + c["flag"])
+    if c["opt"] and rng.random() < 0.5:
+        if rng.random() < 0.5:
+            out.append("--%s=v%d" % (c["opt"], rng.randrange(10)))
+        else:
+            out += ["--" + c["opt"], "v%d" % rng.randrange(10)]
+    rng.shuffle(out) if len(out) == 2 and not any(t.startswith("v") for t in out) else None
+    return out
+
+
+def _hs_word(rng, c, infer):
+    """a word aimed at the subcommands of c: (token, kind)"""
+    if not c["subs"]:
+        return rng.choice(["zz", "q"]), "garbage"
+    sc = rng.choice(c["subs"])
+    r = rng.random()
+    if r < 0.35:
+        return sc["name"], "name"
+    if r < 0.65 and sc["aliases"]:
+        return rng.choice(sc["aliases"])[0], "alias"
+    if r < 0.8 and sc["aliases"]:
+        a = rng.choice(sc["aliases"])[0]
+        return a[:rng.randrange(1, len(a))] if len(a) > 1 else a, "alias-prefix"
+    if r < 0.92:
+        n = sc["name"]
+        return n[:rng.randrange(1, len(n))] if len(n) > 1 else n, "name-prefix"
+    return rng.choice(["zz", "help", "q"]), "garbage"
+
+
+def gen_help_sub_paths(tier, rng, n):
+    cases = []
+    while len(cases) < n:
+        root = _hs_cmd(rng, "p", rng.choice([1, 2, 2, 3]), set())
+        infer = rng.random() < 0.5
+        if infer:
+            root["set"].append("infer_subcommands")
+        if rng.random() < 0.06:
+            root["set"].append("disable_help_subcommand")
+        sx = _hs_sx(root)
+        for _ in range(6):
+            argv = ["p"]
+            cur = root
+            argv += _hs_level_args(rng, cur)
+            for _ in range(rng.choice([0, 0, 1, 1, 2])):          # descend by exact names / aliases
+                if not cur["subs"]:
+                    break
+                sc = rng.choice(cur["subs"])
+                argv.append(rng.choice([sc["name"]] + [a for (a, _) in sc["aliases"]]))
+                cur = sc
+                argv += _hs_level_args(rng, cur)
+            end = rng.random()
+            if end < 0.7:
+                argv.append(rng.choice(["help", "help", "help", "he", "hel", "h"]) if infer else "help")
+                lv = cur
+                for _ in range(rng.choice([0, 1, 1, 2, 2, 3])):
+                    w, kind = _hs_word(rng, lv, infer)
+                    argv.append(w)
+                    nxt = [s for s in lv["subs"] if s["name"] == w or w in [a for (a, _) in s["aliases"]]]
+                    if nxt:
+                        lv = nxt[0]
+            else:
+                argv.append(rng.choice(["--help", "-h"]))
+                if rng.random() < 0.4:
+                    argv.append(rng.choice(["--bogus", "zz", "--help"]))
+            cases.append("(parse %s (argv%s))" % (sx, "".join(" " + hexs(t.encode()) for t in argv)))
+    return cases[:n]
+
+
+def _hs_read(case):
+    """reference reading, from the documentation of the help subcommand / help flag; None = no verdict.
+    -> (expected canonical path or None, saw_help)"""
+    from .. import parse_streams as P
+    cmd, argv = P.decode_case(case)
+    toks = [t.decode() for t in argv[1:]]
+    settings = set(cmd["settings"])
+    infer = "infer_subcommands" in settings
+    if "disable_help_subcommand" in settings or "disable_help_flag" in settings:
+        return None
+    cur, names, i = cmd, [], 0
+
+    def resolve(c, w):
+        hit = [s for s in c["subs"] if s["name"].decode() == w or w in [a.decode() for (a, _) in s["aliases"]]]
+        return hit[0] if len(hit) == 1 else None
+
+    while i < len(toks):
+        t = toks[i]
+        if t in ("--help", "-h"):
+            return names
+        if t.startswith("--"):
+            body = t[2:]
+            key = body.split("=", 1)[0]
+            a = [x for x in cur["args"] if x.get("long", b"").decode() == key]
+            if not a:
+                return None
+            if a[0].get("action") == "set" and "=" not in body:
+                i += 1
+            i += 1
+            continue
+        if t.startswith("-"):
+            return None
+        is_help = t == "help" or (infer and t != "" and "help".startswith(t))
+        if is_help:
+            if not cur["subs"] or any(s["name"].decode().startswith("h") or any(a.decode().startswith("h") for (a, _) in s["aliases"])
+                                      for s in cur["subs"]):
+                return None
+            lv, path = cur, []
+            for w in toks[i + 1:]:
+                if w == "help" and lv["subs"]:
+                    return None                      # the generated help subcommand itself: no verdict
+                nxt = resolve(lv, w)
+                if nxt is None:
+                    return None                      # a word that is no exact name / alias: an error, not judged here
+                path.append(nxt["name"].decode())
+                lv = nxt
+            return names + path
+        nxt = resolve(cur, t)
+        if nxt is None:
+            return None
+        names.append(nxt["name"].decode())
+        cur = nxt
+        i += 1
+    return None
+
+
+def help_sub_oracle(case, impl):
+    if impl is None or impl.startswith("PANIC") or impl.startswith("ABORT"):
+        return "help request panics: %s" % (impl or "no result")[:160]
+    try:
+        exp = _hs_read(case)
+    except Exception:
+        return None
+    if exp is None:
+        return None
+    p = impl.split(" ")
+    if p[0] != "err" or p[1] != "DisplayHelp":
+        return "a help request for level `%s` did not produce a help screen: %s" % (" ".join(["p"] + exp), impl[:120])
+    head = unhex(p[4]).decode("utf-8", "replace") if len(p) > 4 else ""
+    want = "Usage: " + " ".join(["p"] + exp)
+    if not (head == want or head.startswith(want + " ")):
+        return "help of the wrong level: expected `%s ..`, got `%s`" % (want, head)
+    return None
+
+
+def help_sub_project(result):
+    if result is None:
+        return "none"
+    p = result.split(" ")
+    if p[0] == "err":
+        return "err " + (p[1] if p[1] in ("DisplayHelp", "DisplayVersion") else "other")
+    return p[0]
+
+
+def help_sub_nontrivial(case, impl):
+    try:
+        return _hs_read(case) is not None
+    except Exception:
+        return False
+
+
+def describe_help_sub(cases):
+    d = {"cases": len(cases), "judged (reference reading has a verdict)": 0, "help subcommand": 0, "help flag": 0,
+         "infer_subcommands": sum(1 for c in cases if "infer_subcommands" in c), "with alias on the line": 0}
+    for c in cases:
+        try:
+            v = _hs_read(c)
+        except Exception:
+            v = None
+        if v is not None:
+            d["judged (reference reading has a verdict)"] += 1
+        toks = [unhex(t).decode() for t in re.search(r"\(argv([^()]*)\)", c).group(1).split()]
+        if any(t in ("--help", "-h") for t in toks):
+            d["help flag"] += 1
+        elif any(t != "" and "help".startswith(t) for t in toks[1:]):
+            d["help subcommand"] += 1
+        als = {unhex(a).decode() for a in re.findall(r"\(alias (x[0-9a-f]*)", c)}
+        if als & set(toks):
+            d["with alias on the line"] += 1
+    return d
+
+
 def describe(cases, name):
     d = {"cases": len(cases)}
     for k in ("short", "long", "usage", "flag-h", "flag-help", "sub-help"):
@@ -1173,6 +1407,7 @@ def streams(tier, rng):
         Stream("help-f32", ["(helpf32 %d %d)" % (t, w) for (t, w) in ([(300, 300)] if q else [(1200, 1200), (70000, 40)])],
                oracle=f32_oracle, area=None, nontrivial=lambda c, r: True),
     ]
+    hsp = None
     if not q:
         rnd2 = gen_random(tier, rng, 12000)
         adv2 = gen_adversarial(tier, rng, 6000)
@@ -1182,6 +1417,10 @@ def streams(tier, rng):
             Stream("help-adversarial-release", adv2, oracle=oracle, area="help", project=project, nontrivial=nontrivial,
                    profile="release", describe=describe(adv2, "adversarial-release")),
         ]
+    # generated last: the cases of the streams above do not depend on it
+    hsp = gen_help_sub_paths(tier, rng, 600 if q else 12000)
+    out.append(Stream("help-subcommand-paths", hsp, oracle=help_sub_oracle, area="parse", project=help_sub_project,
+                      nontrivial=help_sub_nontrivial, describe=describe_help_sub(hsp)))
     return out
 
 
@@ -1200,7 +1439,8 @@ def classify_known(stream, case, impl, failure):
 
 
 TECHNIQUE = ("Coq proof (column arithmetic, visibility, section assembly, spec_vals non-interference of the help writer; usage line over the "
-             "requirement graph with groups; tag dispatch of custom templates; help-flag dispatch along a subcommand chain on the parser model) "
+             "requirement graph with groups; tag dispatch of custom templates; help-flag and help-subcommand dispatch along subcommand chains with "
+             "arguments between the names, on the parser model) "
              "+ extracted-model/implementation correspondence")
 LEVEL_TEXT = ("Machine-checked theorems (Coq 8.16, closed under the global context) about a model of help_template.rs / "
               "usage.rs that mirrors the Rust functions one by one: every unsigned subtraction and run-time format width in "
@@ -1222,14 +1462,26 @@ LEVEL_TEXT = ("Machine-checked theorems (Coq 8.16, closed under the global conte
               "is mentioned (own piece, or inside the <a|b> of a listed group it belongs to); custom help templates: write_templated_help is "
               "modelled tag by tag and, for EVERY template text, rendering is total, every row any tag writes comes from a shown argument or "
               "a non-hidden subcommand, and {options} / {positionals} / {subcommands} / {all-args} each list every visible item of their kind; "
-              "next_help_heading / subcommand_help_heading decide the section an item is listed in.  The "
+              "next_help_heading / subcommand_help_heading decide the section an item is listed in.  Fourth pass: on the parser model "
+              "`prog -v sub --opt x subsub (--help|-h) anything..` returns the DisplayHelp error of subsub for C09's wide class of lines "
+              "(per level options in six spellings, positional values, multi-values; levels left through names, aliases, inferred prefixes, "
+              "long flag-subcommands), given that every level accepts its own arguments; the generated help argument is DERIVED for every "
+              "level reached from an unbuilt tree whose help flag is not disabled; `help <path>` (the help subcommand; `help` itself possibly "
+              "an inferred prefix) returns the help of the level the path of names / aliases leads to, a word that is no exact name or alias "
+              "gives InvalidSubcommand, and parse_help_subcommand's unwrap is shown dead for clap's canonicalising lookup and live for lookups "
+              "that hand on the typed alias text; a hidden argument that is neither in the unrolled requirement closure nor a member of a "
+              "listed group is MENTIONED by no usage piece (own piece or inside a <a|b>), with a witness for each side of that boundary.  The "
               "model is tied to clap_builder on every run by rendering generated command trees with the real crate at widths "
               "0..200 (debug and release) and comparing sections, rows, help columns and usage tokens with the extracted model; "
               "an independent python oracle written from the property text checks the rendered text itself.")
 LEVEL_NOTE = ("Trusted: Coq kernel, extraction, OCaml driver, Rust harness, generators; core::fmt, BTreeMap, f32 comparison "
               "(swept each run), textwrap (C20) and unicode-width are modelled or abstract; the model's domain excludes flatten_help, "
               "usage / help overrides, subcommand aliases in help, the texts of the template tags name / bin / version / author / before- / "
-              "after-help, non-ASCII names.  Differential / oracle only: byte-exact layout and wrapped text, help chains with flags or values "
-              "between the names.  The help-flag theorems no longer assume long_help_at / short_help_at: they are derived from validity for a level "
+              "after-help, non-ASCII names, Arg::group on the argument side.  Differential / oracle only: byte-exact layout and wrapped text, help "
+              "requests on lines outside the class hsplit (levels left through -S / a short cluster, the flag read while a multi-valued positional "
+              "collects values, args_conflicts_with_subcommands, ignore_errors; covered by the stream help-subcommand-paths and C09's streams).  "
+              "The help-flag theorems no longer assume long_help_at / short_help_at: they are derived from validity for a level "
               "that contains the generated help argument, with the necessary side condition that no subcommand answers to `--help` / `-h`.  Observations (not defect fixes): a default value naming "
-              "a hidden possible value is printed in [default: ..]; a hidden member of a listed group is printed in the usage line <a|b>.")
+              "a hidden possible value is printed in [default: ..]; a hidden member of a listed group is printed in the usage line <a|b> (recorded "
+              "finding; C12_usage_hidden_listed_member_mentioned), and a hidden argument that a required argument `requires` is printed on its own "
+              "(C12_usage_hidden_required_target_mentioned).")
